@@ -90,8 +90,17 @@ func main() {
 		}
 		if *noEvidence {
 			bad := 0
+			known, _ := core.LoadKnown(filepath.Join(vdir, "known_findings.json"))
+			isKnown := func(o core.Ob) bool {
+				for _, k := range known {
+					if k.Status == "open" && k.Property == o.Property && k.Rule == o.Rule && k.Key == o.Key {
+						return true
+					}
+				}
+				return false
+			}
 			for _, o := range c.Obs {
-				if o.Property == id && o.Status != core.Discharged {
+				if o.Property == id && o.Status != core.Discharged && !isKnown(o) {
 					bad++
 					fmt.Printf("FAIL %s %s|%s at %s: %s\n", id, o.Rule, o.Key, o.Pos, o.Detail)
 				}
